@@ -542,7 +542,6 @@ struct ChannelWorld : World {
         ep_setup(S.A, S.fam, key, n, kp);
         ep_setup(S.B, S.fam, key, n, is_cpp(S.fam) ? (int)((op.u(4) >> 1) % 2) : 0);
         if (c.record && kp) c.run->probe("cpp.key_constructor");
-        if (g_mask_extract_bad) { if (c.record) c.run->violation("C10", "randomize_then_extract_returns_key", fam_name(S.fam), "a masked key that was re-randomised no longer extracts to the key it was made from"); g_mask_extract_bad = false; }
         if (c.record) c.run->state(fmt("sess/%d/%u", S.fam, (unsigned)(op.u(3) % 17)));
     }
 
@@ -785,7 +784,6 @@ struct ChannelWorld : World {
             E.calibrated = false;
         }
         if (who != 2 && c.record) c.run->fault("net.key_mismatch");
-        if (g_mask_extract_bad) { if (c.record) c.run->violation("C10", "randomize_then_extract_returns_key", fam_name(S.fam), "a masked key that was re-randomised no longer extracts to the key it was made from"); g_mask_extract_bad = false; }
     }
 
     static void do_nonce(Ctx &c, const Op &op)
@@ -904,6 +902,7 @@ struct ChannelWorld : World {
         c.record = record;
         c.residue = res;
         simrng_reset(simrng_cur(), plan.digest() ^ salt, SIMRNG_RANDOM);
+        g_mask_extract_bad = false;
         int idx = 0;
         for (const Op &op : plan.ops) {
             run.cur_op = idx++;
@@ -918,6 +917,8 @@ struct ChannelWorld : World {
             else if (op.name == "sync") do_sync(c, op);
             else if (op.name == "storm") do_storm(c, op);
             else if (op.name == "close") do_close(c, (int)(op.u(0) % NSESS));
+            // set by ep_key_objects when a re-randomised masked key no longer extracts to its key: reported for the operation that keyed it
+            if (g_mask_extract_bad) { if (c.record) c.run->violation("C10", "randomize_then_extract_returns_key", "masked_key@" + op.name, "a masked key that was re-randomised no longer extracts to the key it was made from"); g_mask_extract_bad = false; }
         }
         for (int s = 0; s < NSESS; ++s) do_close(c, s);
     }
